@@ -392,7 +392,14 @@ func judge(c *lib.Ctx, name string, recs []rec) error {
 			for _, n := range r.Names {
 				names = append(names, bytesOf(n))
 			}
+			// structural key: the two classes with a known cause are named after the cause
 			key := fmt.Sprintf("%s:%s:%s:%s", why, r.Pos, r.Typed.Style, classSig(strings.Join(names, "")))
+			switch {
+			case r.Res.Offered && r.Res.From > r.Dot:
+				key = why + ":replace-range-after-cursor"
+			case r.Kind == "name" && r.Ctx == "var" && strings.Contains(bytesOf(r.Seed), ":"):
+				key = why + ":variable-in-namespace:" + r.Typed.Style
+			}
 			c.Reject(key, fmt.Sprintf("buffer %q dot %d, names %q: %s; completion replaced [%d,%d) with %s",
 				bytesOf(r.Buf), r.Dot, names, why, r.Res.From, r.Res.To, strings.Join(ins, " ")), r.replay)
 		}
